@@ -290,9 +290,19 @@ def run_case(case) -> Outcome:  # noqa: C901, PLR0912, PLR0915
 
     root.setLevel(logging.DEBUG)
     root.addHandler(handler)
+    # a decorated function is not tied to one event loop: the asynchronous / wrap_async wrappers are exercised under
+    # two successive loops (the second round is the one judged below; both must invoke the function)
+    rounds = 2 if (threaded or dec.startswith("wrap_async")) else 1
+    invoked_rounds = 0
     try:
-        with asyncio.Runner() as runner:
-            runner.run(main())
+        for _round in range(rounds):
+            hb["event"].clear()
+            hb["ticks"] = 0
+            seen.clear()
+            obs.clear()
+            with asyncio.Runner() as runner:
+                runner.run(main())
+            invoked_rounds += 1 if "locals" in seen else 0
     finally:
         root.removeHandler(handler)
         root.setLevel(old_level)
@@ -303,8 +313,11 @@ def run_case(case) -> Outcome:  # noqa: C901, PLR0912, PLR0915
     expected_locals = _bind(sig, args, kwargs)
     tag = f"{dec}/{form}"
     rk, rv = obs.get("result", ("none", None))
+    if "locals" in seen and invoked_rounds != rounds:
+        out.violate("transparent", f"C18.transparent/function-not-invoked-under-first-loop/{tag}", f"{invoked_rounds} of {rounds}")
     if "locals" not in seen:
-        out.violate("transparent", f"C18.transparent/function-not-invoked/{tag}", f"result={obs.get('result')!r}")
+        which = "/under-a-second-event-loop" if invoked_rounds == 1 and rounds == 2 else ""
+        out.violate("transparent", f"C18.transparent/function-not-invoked{which}/{tag}", f"result={obs.get('result')!r}")
     else:
         if not _same_locals(seen["locals"], expected_locals):
             out.violate("transparent", f"C18.transparent/arguments-changed/{tag}", f"received {seen['locals']!r} expected {expected_locals!r}")
